@@ -390,6 +390,9 @@ def rand_measure_tp(rnd):
 
 def rand_measure_lt(rnd):
     r = rnd.random()
+    if r > 0.94:
+        # a latency measured as exactly 0 (an eliminated move) is the integer 0; a hair above 0 is within 5 % of nothing
+        return rnd.choice([0, 0, 0, 1, 40000])
     if r < 0.6:
         n = rnd.choice([1, 1, 2, 3, 4, 5, 6, 8, 9, 10, 13, 20, 47, 120])
         f = rnd.choice([rnd.uniform(0.90, 0.9485), rnd.uniform(0.9530, 1.0490), rnd.uniform(0.9530, 1.0490), rnd.uniform(1.0530, 1.10), 1.0])
